@@ -1030,6 +1030,110 @@ func validateSpaceAndExits(c *Ctx, r *Rep, fn, validate *ssa.Function, d *dpRend
 			r.Check(ok, sprintf("compares-profile-with-subject|%s#%d", c.FuncKey(vf), n), c.Pos(ci.Pos()), "an attribute type of the profile's list is compared with an attribute type of the subject", a+" with "+b)
 		}
 	}
+	// --- allowOther: what decides that a mandatory attribute is there is a comparison of attribute TYPES (OID with OID),
+	// the profile's with the subject's - in the branch itself or in a helper it hands both sides to. Presence looked up
+	// through anything coarser (a short name that many OIDs share, a text) lets one attribute stand in for another.
+	{
+		var profP, contP string
+		for _, prm := range validate.Params {
+			switch typeShort(c, prm.Type()) {
+			case "config.CertificateProfile", "*config.CertificateProfile":
+				profP = "P(" + c.FuncKey(validate) + "." + prm.Name() + ")"
+			case "config.CertificateContent", "*config.CertificateContent":
+				contP = "P(" + c.FuncKey(validate) + "." + prm.Name() + ")"
+			}
+		}
+		if profP != "" && contP != "" {
+			pv := c.newProv()
+			side := func(v ssa.Value) string {
+				o := strings.Join(pv.Origins(v), " , ")
+				hasP, hasC := strings.Contains(o, profP), strings.Contains(o, contP)
+				switch {
+				case hasP && !hasC:
+					return "profile"
+				case hasC && !hasP:
+					return "subject"
+				}
+				return ""
+			}
+			// a helper that compares, OID with OID, something of one of its parameters with something of another
+			var comparesParams func(h *ssa.Function, d int) bool
+			comparesParams = func(h *ssa.Function, d int) bool {
+				if h == nil || !c.InModule(h) || h.Blocks == nil || d > 2 {
+					return false
+				}
+				hp := c.newProv()
+				for _, ci := range callsIn(h) {
+					if strings.HasSuffix(calleeFullName(ci), "ObjectIdentifier).Equal") && len(ci.Common().Args) == 2 {
+						pa, pb := "", ""
+						for _, prm := range h.Params {
+							key := "P(" + c.FuncKey(h) + "." + prm.Name() + ")"
+							if strings.Contains(strings.Join(hp.Origins(ci.Common().Args[0]), ","), key) {
+								pa = key
+							}
+							if strings.Contains(strings.Join(hp.Origins(ci.Common().Args[1]), ","), key) {
+								pb = key
+							}
+						}
+						if pa != "" && pb != "" && pa != pb {
+							return true
+						}
+					} else if comparesParams(ci.Common().StaticCallee(), d+1) {
+						return true
+					}
+				}
+				return false
+			}
+			regionBlocks, compares := 0, 0
+			var at token.Pos
+			for _, b := range validate.Blocks {
+				inRegion := false
+				for _, g := range guardsOf(b) {
+					if g.Truth && strings.Contains(strings.Join(pv.Origins(g.Cond), ","), ".AllowOther") {
+						inRegion = true
+						if !at.IsValid() {
+							at = g.Cond.Pos()
+						}
+					}
+				}
+				if !inRegion {
+					continue
+				}
+				regionBlocks++
+				for _, ins := range b.Instrs {
+					ci, isCall := ins.(ssa.CallInstruction)
+					if !isCall {
+						continue
+					}
+					args := ci.Common().Args
+					if strings.HasSuffix(calleeFullName(ci), "ObjectIdentifier).Equal") && len(args) == 2 {
+						a, b2 := side(args[0]), side(args[1])
+						if a != "" && b2 != "" && a != b2 {
+							compares++
+						}
+						continue
+					}
+					if h := ci.Common().StaticCallee(); h != nil && c.InModule(h) {
+						hasProf, hasSubj := false, false
+						for _, a := range args {
+							switch side(a) {
+							case "profile":
+								hasProf = true
+							case "subject":
+								hasSubj = true
+							}
+						}
+						if hasProf && hasSubj && comparesParams(h, 0) {
+							compares++
+						}
+					}
+				}
+			}
+			if regionBlocks > 0 {
+				r.Check(compares > 0, "allow-other-compares-types|"+c.FuncKey(validate), c.Pos(at), "with allowOther, a mandatory attribute counts as present on account of a comparison of its type (OID) with the subject's attribute types", sprintf("%d such comparison(s) in the branch", compares))
+			}
+		}
+	}
 	// --- allowOther: each mandatory attribute is searched for; found is false until an attribute equals it
 	for _, b := range fn.Blocks {
 		for _, ins := range b.Instrs {
